@@ -148,6 +148,22 @@ Theorem C06_deadline_order : forall c ops st evs a oA ops2 st2 evs2,
 Proof. exact deadline_order. Qed.
 Print Assumptions C06_deadline_order.
 
+(* Deadline order, unconditional form: if no cancel of A's id is queued at the state where A is
+   registered and the continuation issues none (Cb (CCancel ..), Cb (CFCancel ..), or the same from
+   inside any callback script), then every callback filed under a later deadline is preceded by A's
+   callback filed under dA, and at the end A has run or is still registered (it cannot be lost). *)
+Theorem C06_deadline_order_nocancel : forall c ops st evs a oA ops2 st2 evs2,
+  run (init c) ops = Ok (st, evs) -> hget a (heap st) = Some oA -> In (o_exp oA, a) (timers st) ->
+  existsb (pf_cancels a (o_seq oA)) (pending st) = false ->
+  forallb (fun o => negb (op_cancels a (o_seq oA) o)) ops2 = true ->
+  run st ops2 = Ok (st2, evs2) ->
+  (forall l1 s dl n t l2, evs2 = l1 ++ ERun s dl n t :: l2 -> o_exp oA < dl ->
+      exists nA tA, In (ERun (o_seq oA) (o_exp oA) nA tA) l1) /\
+  ((exists nA tA, In (ERun (o_seq oA) (o_exp oA) nA tA) evs2) \/
+   (hget a (heap st2) = Some oA /\ In (o_exp oA, a) (timers st2))).
+Proof. exact deadline_order_nocancel. Qed.
+Print Assumptions C06_deadline_order_nocancel.
+
 (* The guards of the CURRENT sources (regenerated from the clang AST on every run) are the tests the
    model performs: insert's `earliestChanged`, reset's `repeat() && not in cancelingTimers_`, the
    Timestamp::valid() gate of the re-arm (a default Timestamp is invalid), and the guarded branches do
@@ -224,6 +240,8 @@ Example C06_deadline_order_nonvacuous :
   match run (init 1000) [Cb (CAdd 1700 0 20); Cb (CAdd 1500 0 10)] with
   | Ok (st, _) =>
       hget 10 (heap st) = Some (mkT 2 1500 0) /\ In (1500, 10) (timers st) /\
+      existsb (pf_cancels 10 2) (pending st) = false /\
+      forallb (fun o => negb (op_cancels 10 2 o)) [Cb (CTick 800); Fire [[CCancel 20 1]]] = true /\
       match run st [Cb (CTick 800); Fire []] with
       | Ok (_, evs2) => exists l2, evs2 = [ERun 2 1500 1800 1800] ++ ERun 1 1700 1800 1800 :: l2
       | _ => False end /\
